@@ -487,6 +487,9 @@ pub fn bfs_check<const N: usize>(prop: &str, o: &Opts, rep: &mut Report) {
     if prop == "C01" && o.shard.0 == 0 {
         crate::io::c01_extend_ref::<N>(rep);
     }
+    if prop == "C03" && o.shard.0 == 0 {
+        crate::zst::zst_twin::<N>(prop, rep);
+    }
 }
 
 /// Every constructor, every source length 0..=2N+1: contents, ownership, panics, allocations.
